@@ -109,6 +109,58 @@ GuardCoverage == /\ \E u \in AtFinal : Expect(u).io /\ ~Expect(u).csum
                  /\ \E u \in AtFinal : ~Force(u.flags) /\ ~Expect(u).incomplete
                  /\ \A st \in {"header", "check_fs", "keys", "final"} : \E u \in UndoRuns : Expect(u).decided /\ Expect(u).stage = st
                  /\ \A d \in Defects, fl \in DryFlagSets : \E u \in UndoRuns : u.defect = d /\ u.flags = fl
+
+\* ------------------------------------------------------------------------------------------------ 4. external journal device
+(* Round 3.  A filesystem whose journal lives on a device of its own (mke2fs -O journal_dev, attached through
+   s_journal_uuid) makes every invocation a run over TWO target devices (ToolRunZ!TargetObjs = {0, 3}).  The catalogue is
+   journal flavour x state of the journal device x invocation form; a form says which tool, which documented read-only
+   command line, and HOW the journal device is reached:
+       "opt"   named by an option of the command line (e2fsck -j <dev>, debugfs logdump -f <dev>, mke2fs -J device=)
+       "uuid"  found by the tool through the superblock's s_journal_uuid (libblkid lookup)
+       "self"  the journal device IS the device of the command line (tune2fs -l, dumpe2fs, e2image, debugfs ... <dev>)
+   The property for all of them: no effective write-class step on a descriptor of EITHER device, both digests unchanged. *)
+ExtJProfiles == {"plain", "csum"}       \* journal superblock without / with JBD2 checksum v3 (ext3-like fs / metadata_csum fs)
+\* clean: replayed, s_start = 0 | recover: committed transactions + needs_recovery | errno: s_errno # 0 in the journal
+\* superblock, nothing to recover (the journal was aborted: a read-write e2fsck moves the error to the filesystem and
+\* CLEARS s_errno on the journal device) | recover_errno: both | multi_user: the journal superblock's user list has two
+\* filesystems (s_nr_users = 2: shared journal devices are not supported) | dev_uuid: the ext2 superblock of the journal device carries another UUID than s_journal_uuid (reached by
+\* option only) | jsb_csum: journal superblock checksum wrong (csum flavour) | jsb_magic: no JBD2 magic
+ExtJStates == {"clean", "recover", "errno", "recover_errno", "multi_user", "dev_uuid", "jsb_csum", "jsb_magic"}
+ExtJStateOK(p, st) == (st = "jsb_csum" => p = "csum")
+ExtJImages == {i \in [profile : ExtJProfiles, jstate : ExtJStates] : ExtJStateOK(i.profile, i.jstate)}
+\* states in which a READ-WRITE run would write the journal device (what a read-only run must not do)
+ExtJWantsWrite(st) == st \in {"recover", "errno", "recover_errno"}
+Reaches == {"opt", "uuid", "self"}
+\* <<tool, form, reach>> (argv in checks/c13.py EXTJ_ARGV)
+ExtJForms == { <<"e2fsck", "n", "opt">>, <<"e2fsck", "fn", "opt">>, <<"e2fsck", "n_journal_only", "opt">>,
+               <<"e2fsck", "fn_z", "opt">>, <<"e2fsck", "n", "uuid">>, <<"e2fsck", "fn", "uuid">>, <<"e2fsck", "n", "self">>,
+               <<"debugfs", "logdump_f", "opt">>, <<"debugfs", "logdump_af", "opt">>, <<"debugfs", "logdump_Sf", "opt">>,
+               <<"debugfs", "logdump", "uuid">>, <<"debugfs", "logdump_a", "uuid">>, <<"debugfs", "ls", "uuid">>,
+               <<"debugfs", "jo_f_refused", "opt">>, <<"debugfs", "jr_refused", "uuid">>, <<"debugfs", "jo_refused", "uuid">>,
+               <<"debugfs", "logdump_f_nofs", "self">>, <<"debugfs", "stats", "self">>, <<"debugfs", "c_logdump", "uuid">>,
+               <<"debugfs_script", "journal", "uuid">>, <<"debugfs_script", "journal_f", "opt">>,
+               <<"dumpe2fs", "plain", "self">>, <<"dumpe2fs", "h", "self">>, <<"dumpe2fs", "plain", "uuid">>,
+               <<"tune2fs", "l", "self">>, <<"tune2fs", "l", "uuid">>,
+               <<"e2image", "normal", "self">>, <<"e2image", "r", "self">>, <<"e2image", "normal", "uuid">>, <<"e2image", "r", "uuid">>,
+               <<"resize2fs", "P", "uuid">>, <<"e2freefrag", "plain", "uuid">>, <<"e2freefrag", "plain", "self">>,
+               <<"mke2fs", "n_journal_dev", "self">>, <<"mke2fs", "n_J_device", "opt">> }
+\* writing control runs (class "rw"): the recorder must SEE the journal device written in the states that want it
+ExtJControls == { <<"e2fsck", "fy", "opt">>, <<"e2fsck", "p", "opt">> }
+ExtJRuns == {[profile |-> i.profile, jstate |-> i.jstate, tool |-> f[1], form |-> f[2], reach |-> f[3], class |-> "ro"] :
+                i \in ExtJImages, f \in ExtJForms}
+            \cup {[profile |-> i.profile, jstate |-> i.jstate, tool |-> f[1], form |-> f[2], reach |-> f[3], class |-> "rw"] :
+                i \in {x \in ExtJImages : ExtJWantsWrite(x.jstate)}, f \in ExtJControls}
+\* every tool of the property text that can be pointed at a filesystem has a form here (e2undo's target relation is the
+\* catalogue of section 3); e2fsck reaches the journal device both ways; every reach is used; the state the tools most
+\* want to write in (s_errno alone) is a state of both flavours
+ExtJTools == {"e2fsck", "debugfs", "debugfs_script", "dumpe2fs", "tune2fs", "resize2fs", "e2image", "e2freefrag", "mke2fs"}
+ASSUME {f[1] : f \in ExtJForms} = ExtJTools
+ASSUME \A r \in Reaches : \E f \in ExtJForms : f[3] = r
+ASSUME \A r \in {"opt", "uuid"}, fo \in {"n", "fn"} : <<"e2fsck", fo, r>> \in ExtJForms
+ASSUME \A p \in ExtJProfiles : [profile |-> p, jstate |-> "errno"] \in ExtJImages
+ASSUME \A f \in ExtJForms : f[3] \in Reaches
+ASSUME \E u \in ExtJRuns : u.class = "rw" /\ u.jstate = "errno"
+
 ASSUME DryNeverFsck
 ASSUME GuardCoverage
 ASSUME \A a \in ImageAxes : AxisOK(a.j, a.o)
